@@ -803,12 +803,10 @@ theorem originNames_equiv {a b : InkList} (h : InkList.Equiv a b) :
     (a.originNames = none ∧ b.originNames = none) ∨
       ∃ x y, a.originNames = some x ∧ b.originNames = some y ∧ x.Perm y := by
   unfold InkList.originNames
-  rw [← perm_isEmpty h.1, ← h.1.all_eq]
+  rw [← perm_isEmpty h.1]
   split
   · exact Or.inr ⟨_, _, rfl, rfl, h.2.2⟩
-  · split
-    · exact Or.inr ⟨_, _, rfl, rfl, h.1.map _⟩
-    · exact Or.inl ⟨rfl, rfl⟩
+  · exact Or.inr ⟨_, _, rfl, rfl, h.1.filterMap _⟩
 
 theorem Expr.pushNorm_equiv (defs : ListDefs) {v v' : Val} (h : Val.Equiv v v') :
     Out.Equiv Val.Equiv (Expr.pushNorm defs v) (Expr.pushNorm defs v') := by
@@ -817,10 +815,7 @@ theorem Expr.pushNorm_equiv (defs : ListDefs) {v v' : Val} (h : Val.Equiv v v') 
     rcases originNames_equiv hl with ⟨e, e'⟩ | ⟨x, y, e, e', hp⟩
     · rw [e, e']; rfl
     · rw [e, e']
-      simp only [← hp.all_eq]
-      split
-      · exact ⟨hl.1, hp, hl.2.2⟩
-      · rfl
+      exact ⟨hl.1, hp.filter _, hl.2.2⟩
   · exact Out.equiv_val_refl _
 
 theorem Expr.pushNorm_wf (defs : ListDefs) {v : Val} (h : v.WF) : Out.WF (Expr.pushNorm defs v) := by
@@ -829,9 +824,7 @@ theorem Expr.pushNorm_wf (defs : ListDefs) {v : Val} (h : v.WF) : Out.WF (Expr.p
     simp only [Expr.pushNorm]
     split
     · trivial
-    · split
-      · exact h
-      · trivial
+    · exact h
   | _ => exact h
 
 theorem forall₂_map_val {args args' : List Val} (h : List.Forall₂ Val.Equiv args args') :
